@@ -12,10 +12,20 @@ for d in sorted(glob.glob('/verif/seeded/C*-*')):
     cb = m.get('confirmed_by_builder', {})
     chk = cb.get('checks', {})
     sigs = []
+    tiernote = ''
     for c, v in chk.items():
         if v.get('rc') == 1:
             sigs += [s for s in v.get('signatures', [])][:2]
+            if v.get('tier') and v.get('tier') != 'quick':
+                tiernote = ' (' + v['tier'] + ' tier only)'
     now = ('caught: ' + '; '.join('`%s`' % s for s in sigs[:2])) if sigs else 'NOT caught'
+    if not sigs and name in first and 'reported by C' in first[name]:
+        now = 'caught by the sibling check named under "first run"'
+    now += tiernote
+    if m.get('superseded'):
+        now += ' (as recorded on /repo ' + str(cb.get('head', '?')) + '; the code it edits was replaced by repair 20)'
+    if m.get('ported'):
+        now += ' (re-expressed on the repaired tree)'
     fr = 'missed — ' + first[name] if name in first else 'caught'
     summ = re.sub(r'\s+', ' ', m.get('summary', '')).strip()
     if len(summ) > 230:
